@@ -493,7 +493,10 @@ class SSETransport(Transport):
                             }
                             await self._route_incoming_message(error_response)
                         except asyncio.CancelledError:
+                            # Only _cleanup cancels a future that is being awaited:
+                            # propagate, or the cancellation of this task is lost
                             logger.debug(f"Request {message_id} was cancelled")
+                            raise
                     else:
                         # Unexpected status
                         logger.warning(
